@@ -5,8 +5,8 @@ import PsModel.Spec.C07
 
 ```
 C07 (active <specs> <now> <startup> <suntab> <crontab>)        → model=T|F|raise spec=T|F|raise
-C07 (legacy cur|rep <cfg> <events> <suntab> <crontab>)         → model=1010 spec=1010
-C07 (new cur|rep <cfg> <events> <suntab> <crontab>)            → model=1010 spec=1010
+C07 (legacy cur|pre|rep <cfg> <events> <suntab> <crontab>)         → model=1010 spec=1010
+C07 (new cur|pre|rep <cfg> <events> <suntab> <crontab>)            → model=1010 spec=1010
 C07 (parse <dt> <dayoff> <now> <startup> <suntab>)             → ok <t> <fixed> | raise
 specs  = ((neg range <dt> <dt>) | (neg cron id) …)
 dt     = (at <date> <time> off) | (now off)
@@ -130,13 +130,13 @@ def handle (x : Sexp) : String :=
   | .list [.atom "legacy", .atom fl, cfg, evs, sunTab, cronTab] =>
     match cfg? cfg, Sexp.listOf? ev? evs, params? sunTab cronTab with
     | some c, some es, some P =>
-      let F := if fl == "rep" then Flags.repaired else Flags.current
+      let F := if fl == "rep" then Flags.repaired else if fl == "pre" then Flags.preFix else Flags.current
       s!"model={showFlags (Legacy.run F P c es GState.init)} spec={showFlags (Spec.runs P c es [])}"
     | _, _, _ => "err parse"
   | .list [.atom "new", .atom fl, cfg, evs, sunTab, cronTab] =>
     match cfg? cfg, Sexp.listOf? ev? evs, params? sunTab cronTab with
     | some c, some es, some P =>
-      let F := if fl == "rep" then Flags.repaired else Flags.current
+      let F := if fl == "rep" then Flags.repaired else if fl == "pre" then Flags.preFix else Flags.current
       s!"model={showFlags (New.run F P c es GState.init)} spec={showFlags (Spec.runs P c es [])}"
     | _, _, _ => "err parse"
   | _ => "err bad-command"
